@@ -24,7 +24,7 @@ ASSUMPTIONS = ["values compared on the intersection of rows where both runs prod
                "hourly families, on days with usable usage in both runs for the daily family (a day without usage gets no prediction: C07), not for billing",
                "billing: the observed column is altered on the billing reads; the same read calendar is kept", "from_series entry: the first and last day of either run are not compared (the feed is cut to the span of the meter readings, so they may be partly spanned days)"]
 REQUIRED_REACH = {"pair.compared": 60, "pair.rows": 5000, "baseline.covers_all_months_and_weekdays": 6, "alteration.absent": 6, "alteration.all_nan": 6,
-                  "span.with_dst_change": 4, "span.with_weather_gaps": 4, "pair.presence_compared": 40, "pair.presence_rows": 5000, "span.daily_from_series_hourly_temperature": 2, "span.daily_from_series_interval_usage_with_weather_gaps": 2, "span.from_series_weather_gaps_over_local_midnight": 2, "span.with_duplicated_timestamps": 4, "span.from_series_feed_in_another_zone_than_the_meter": 2}
+                  "span.with_dst_change": 4, "span.with_weather_gaps": 4, "pair.presence_compared": 40, "pair.presence_rows": 5000, "span.daily_from_series_hourly_temperature": 2, "span.daily_from_series_interval_usage_with_weather_gaps": 2, "span.from_series_weather_gaps_over_local_midnight": 2, "span.with_duplicated_timestamps": 4, "span.from_series_feed_in_another_zone_than_the_meter": 2, "model.with_cells_in_the_outlier_temporal_cluster": 1}
 
 VIOL = []
 
@@ -94,6 +94,8 @@ def run_case(spec):
         raise RuntimeError("generator premise broken: baseline covers %d of 84 (month, weekday) cells" % len(cov))
     data = fam.baseline_data(bdf)
     m = fam.fit(fam.new_model(seed=spec["n"] + 1), data)
+    if fam.kind == "hourly" and (m._df_temporal_clusters["temporal_cluster"] == -1).any():
+        I.reach("model.with_cells_in_the_outlier_temporal_cluster")
     spans = [("week", "2019-06-03", 7), ("month-with-dst", "2019-02-25" if tz != "Australia/Sydney" else "2019-03-20", 31), ("partial", "2019-04-10", 150), ("year", "2019-01-01", 365)]
     if spec["tier"] == "quick":
         spans = spans[:3] if fam.kind != "caltrack" else spans[1:3]
